@@ -5,9 +5,10 @@
 -/
 import CklVerif.Driver.Basic
 import CklVerif.Driver.SeqDate
+import CklVerif.Driver.EvalCmd
 open Ckl
 
-def handlers : List (Sx → Option Sx) := [handleValue, handleSeqDate]
+def handlers : List (Sx → Option Sx) := [handleValue, handleSeqDate, handleEval]
 
 def dispatch (req : Sx) : Sx :=
   match handlers.findSome? (fun h => h req) with
